@@ -252,6 +252,10 @@ int main(int argc, char **argv) {
     rng.reseed(seed * 1000003ull + args.i("n", 0) * 7 + args.i("order", 0));
     seed_library(seed + args.i("n", 0));
     std::string mode = args.s("mode", "lifecycle");
+    if (mode == "lifecycle" && args.i("prelude", 0)) {      // process history: a full lifecycle under another configuration first
+        lifecycle(args.i("n", 3) == 2 ? 5 : 2, args.i("k", 1) == 1 ? 2 : 1, args.i("l", 2) == 2 ? 3 : 2, args.i("Bgbit", 10) == 8 ? 6 : 8, args.i("t", 8) == 3 ? 4 : 3, args.i("basebit", 2) == 3 ? 2 : 3, 1, 0);
+        out.cell("history:lifecycle-under-another-configuration-first");
+    }
     if (mode == "lifecycle") lifecycle(args.i("n", 3), args.i("k", 1), args.i("l", 2), args.i("Bgbit", 10), args.i("t", 8), args.i("basebit", 2), args.i("order", 0), args.i("heavyio", 1));
     else if (mode == "iokinds") iokinds_pass(args.i("reps", 4));
     else if (mode == "allocators") allocator_sweep(args.i("reps", 3));
